@@ -18,8 +18,11 @@ BUILD = os.path.join(VERIF, "_build")
 COQ = os.path.join(VERIF, "coq")
 GEN = os.path.join(COQ, "gen")
 HARNESS_DIR = os.path.join(VERIF, "harness")
-TARGET = os.path.join(BUILD, "target")
-CLI_TARGET = os.path.join(BUILD, "cli")
+# cargo decides freshness of path packages by source mtimes under one target dir, so a scratch
+# tree (VERIF_REPO) must never share build directories with /repo
+_SFX = "" if REPO == "/repo" else "-" + hashlib.sha1(REPO.encode()).hexdigest()[:8]
+TARGET = os.path.join(BUILD, "target" + _SFX)
+CLI_TARGET = os.path.join(BUILD, "cli" + _SFX)
 NCPU = os.cpu_count() or 4
 
 ENV = dict(os.environ)
@@ -292,9 +295,15 @@ def print_assumptions(pid, timeout=1200):
     with open(os.path.join(COQ, path)) as f:
         src = f.read()
     order = re.findall(r"Print Assumptions\s+(\w+)\s*\.", src)
+    local_names = set(re.findall(r"^\s*(?:Theorem|Lemma|Example|Definition|Corollary|Remark|Fact)\s+(\w+)", src, flags=re.M))
+    local_names |= set(re.findall(r"^\s*Check\s+\(?@?(\w+)\)?", src, flags=re.M))
     blocks = []
     cur = None
     for line in out.split("\n"):
+        # the echo of a following `Check name : stmt.` (name on its own line) ends an Axioms: block
+        m0 = re.match(r"^([A-Za-z_][\w']*)\s*(:|$)", line)
+        if cur is not None and m0 and m0.group(1) in local_names:
+            cur = None
         if line.startswith("Closed under the global context"):
             blocks.append([])
             cur = None
@@ -302,7 +311,9 @@ def print_assumptions(pid, timeout=1200):
             cur = []
             blocks.append(cur)
         elif cur is not None:
-            m = re.match(r"^(\S+)\s*:", line)
+            # an axiom is printed as `name : type` or, for long types, `name` alone on one line
+            # followed by an indented `  : type`
+            m = re.match(r"^([A-Za-z_][\w.']*)\s*(:|$)", line)
             if m and not line.startswith(" "):
                 cur.append(m.group(1))
             elif line.strip() == "":
@@ -584,5 +595,29 @@ def generic_replay(harness, path):
 
 
 def regen_all(harness):
-    """Regenerate every coq/gen/*.v from /repo (source text and built crate)."""
+    """Regenerate every coq/gen/*.v from /repo (source text and built crate): the shared built-in
+    table plus every `regen_*` function that a check module (checks/cNN.py) defines — a full .vo
+    build needs all generated tables, whichever property is being checked."""
+    import glob
+    import importlib
+    import inspect
     regen_builtins(harness)
+    here = os.path.dirname(os.path.abspath(__file__))
+    for path in sorted(glob.glob(os.path.join(here, "c[0-9][0-9].py"))):
+        name = os.path.basename(path)[:-3]
+        try:
+            mod = importlib.import_module(name)
+        except Exception as e:          # a broken check module must not take the others down
+            log("regen_all: cannot import %s: %s" % (name, e))
+            continue
+        for attr in sorted(dir(mod)):
+            fn = getattr(mod, attr)
+            if attr.startswith("regen_") and callable(fn) and getattr(fn, "__module__", None) == mod.__name__:
+                try:
+                    nparams = len([p_ for p_ in inspect.signature(fn).parameters.values()
+                                   if p_.default is inspect.Parameter.empty])
+                    fn(harness) if nparams >= 1 else fn()
+                except BrokenTie:
+                    raise
+                except Exception as e:
+                    raise BrokenTie("generated table %s.%s could not be rebuilt from /repo" % (name, attr), repr(e))
